@@ -1335,6 +1335,8 @@ const c19BalloonKey = "balloon.balloons.resource-policy.nri.io"
 
 type c19BlnType struct {
 	Name       string    `json:"name"`
+	Prio       string    `json:"prio,omitempty"` // allocatorPriority: orders CPU allocation of instances, must not affect type selection
+	MinBln     int       `json:"min_balloons,omitempty"`
 	Namespaces []string  `json:"namespaces,omitempty"`
 	Exprs      []c19Expr `json:"exprs,omitempty"`
 }
@@ -1373,7 +1375,10 @@ func (g *c19Gen) blnCase(n int) *c19Case {
 		}
 	}
 	for _, name := range names {
-		t := c19BlnType{Name: name}
+		t := c19BlnType{Name: name, Prio: sysgen.Pick(r, []string{"", "", "low", "normal", "high", "none"})}
+		if name != "reserved" && name != "default" && r.Chance(1, 4) {
+			t.MinBln = 1 // pre-created instances: instance creation order is by priority, selection order is not
+		}
 		rules := r.Intn(4) // 0: none, 1: namespaces, 2: expressions, 3: both
 		if (name == "reserved" || name == "default") && r.Chance(1, 2) {
 			rules = 0
@@ -1509,7 +1514,7 @@ func c19RunBalloon(ctx *Ctx, cs *c19Case, serial int) {
 		ReservedPoolNamespaces: append([]string(nil), sp.ReservedNS...),
 	}
 	for _, t := range sp.Types {
-		d := &blncfg.BalloonDef{Name: t.Name, Namespaces: append([]string(nil), t.Namespaces...)}
+		d := &blncfg.BalloonDef{Name: t.Name, Namespaces: append([]string(nil), t.Namespaces...), AllocatorPriority: blncfg.CPUPriority(t.Prio), MinBalloons: t.MinBln}
 		for i := range t.Exprs {
 			d.MatchExpressions = append(d.MatchExpressions, *t.Exprs[i].real())
 		}
